@@ -9,6 +9,8 @@ sum / count) against per-rule reference runs on fresh single rules; permutation
 invariance over the recorded history; stable shortest-first order; the report
 is a str naming every failing path.
 """
+import re
+
 from .. import gen as G
 from ..common import Report, stream, digest, order_to_decisions, big
 from ..engine import Engine, Monitor, Scripted
@@ -103,6 +105,19 @@ def _near_duplicate(r, rule):
 
 
 # --------------------------------------------------------------------------
+
+
+def names_path(report, path):
+    """Does the text name this failing path?  The statement does not fix a
+    format, so besides the tuple repr used today any single line mentioning
+    every element of the path, in order, counts."""
+    if repr(path) in report:
+        return True
+    elems = [str(e) for e in path]
+    if not elems:
+        return True  # the document root: there is nothing to spell out
+    pat = ".*?".join(re.escape(e) for e in elems)
+    return any(re.search(pat, line) for line in report.splitlines())
 
 
 def core_rt(rt):
@@ -251,12 +266,12 @@ def on_boundary(eng, c, k, op, out):
             vio.append(dict(oracle="report_not_str", locus="rule_test", detail={"op": op, "rule": ri, "got": repr(rrep)[:200]}))
             return vio
         for f in rt.failures:
-            if repr(f.path) not in rrep:
+            if not names_path(rrep, f.path):
                 vio.append(dict(oracle="report_omits_path", locus="rule_test", detail={"op": op, "rule": ri, "path": repr(f.path)}))
                 return vio
         for f in rt.failures:
             pairs.append((ri, snap(f.path)))
-            if repr(f.path) not in report:
+            if not names_path(report, f.path):
                 vio.append(dict(oracle="report_omits_path", locus="failing_path", detail={"op": op, "path": repr(f.path), "report": report[:600]}))
                 return vio
     st["history"].append((si, di, len(st["edits"].get(di, ())), (exp_valid, exp_fail, exp_tested, tuple(sorted(pairs, key=repr)))))
